@@ -10,39 +10,43 @@ type Spec struct {
 	// Prefix: translate only the longest prefix of the function's statements the translator understands (the guards in front of its
 	// effects); the Lean definition returns Unit: an error is a refusal, `pure ()` is "not refused by these guards"
 	Prefix bool
+	// Until (prefix mode): stop in front of the first top-level statement whose source text contains this string
+	Until string
 }
 
 // order matters: a function is listed after the listed functions it calls
 var specs = []Spec{
-	{"x/amm/types", "solveConstantFunctionInvariant", "solveConstantFunctionInvariant", false, false},
-	{"x/amm/types", "CalculateTokenARate", "calculateTokenARate", false, false},
-	{"x/amm/types", "feeRatio", "feeRatio", false, false},
-	{"x/amm/types", "calcPoolSharesOutGivenSingleAssetIn", "calcPoolSharesOutGivenSingleAssetIn", false, false},
-	{"x/amm/types", "AbsDifferenceWithSign", "absDifferenceWithSign", false, false},
-	{"x/amm/types", "ApplyDiscount", "applyDiscount", false, false},
-	{"x/amm/types", "GetWeightBreakingFee", "getWeightBreakingFee", false, false},
-	{"x/commitment/types", "VestingTokens.VestedSoFar", "vestedSoFar", false, false},
-	{"x/perpetual/types", "CalcTakeAmount", "calcTakeAmount", false, false},
-	{"x/perpetual/types", "MTP.CalcMTPTakeProfitBorrowFactor", "calcMTPTakeProfitBorrowFactor", false, false},
-	{"x/perpetual/types", "MTP.GetBorrowInterestAmountAsCustodyAsset", "getBorrowInterestAmountAsCustodyAsset", false, false},
-	{"x/perpetual/types", "CalcMTPTakeProfitCustody", "calcMTPTakeProfitCustody", false, false},
-	{"x/perpetual/keeper", "Keeper.CalcReturnAmount", "calcReturnAmount", false, false},
-	{"x/perpetual/keeper", "Keeper.GetLiquidationPrice", "getLiquidationPrice", false, false},
-	{"x/perpetual/keeper", "Keeper.CalcMTPTakeProfitLiability", "calcMTPTakeProfitLiability", false, false},
-	{"x/perpetual/keeper", "Keeper.GetFundingPaymentRates", "getFundingPaymentRates", false, false},
-	{"x/perpetual/keeper", "Keeper.BorrowInterestRateComputation", "borrowInterestRateComputation", false, false},
-	{"x/perpetual/keeper", "Keeper.CalcMinCollateral", "calcMinCollateral", false, false},
-	{"x/stablestake/keeper", "Keeper.GetRedemptionRate", "getRedemptionRate", false, false},
-	{"x/stablestake/keeper", "Keeper.Borrow", "borrowGuards", false, true},
-	{"x/perpetual/keeper", "Keeper.CheckAndCloseAtStopLoss", "perpStopLossGuards", false, true},
-	{"x/perpetual/keeper", "Keeper.CheckAndCloseAtTakeProfit", "perpTakeProfitGuards", false, true},
-	{"x/tradeshield/keeper", "Keeper.ExecuteStopLossOrder", "execStopLossGuards", false, true},
-	{"x/tradeshield/keeper", "Keeper.ExecuteLimitSellOrder", "execLimitSellGuards", false, true},
-	{"x/tradeshield/keeper", "Keeper.ExecuteLimitBuyOrder", "execLimitBuyGuards", false, true},
-	{"x/tradeshield/keeper", "Keeper.ExecuteLimitOpenOrder", "execLimitOpenGuards", false, true},
-	{"x/masterchef/keeper", "Keeper.CollectGasFees", "collectGasFees", true, false},
-	{"x/masterchef/keeper", "Keeper.CollectPerpRevenue", "collectPerpRevenue", true, false},
-	{"x/stablestake/keeper", "Keeper.InterestRateComputation", "interestRateComputation", false, false},
+	{"x/amm/types", "solveConstantFunctionInvariant", "solveConstantFunctionInvariant", false, false, ""},
+	{"x/amm/types", "CalculateTokenARate", "calculateTokenARate", false, false, ""},
+	{"x/amm/types", "feeRatio", "feeRatio", false, false, ""},
+	{"x/amm/types", "calcPoolSharesOutGivenSingleAssetIn", "calcPoolSharesOutGivenSingleAssetIn", false, false, ""},
+	{"x/amm/types", "AbsDifferenceWithSign", "absDifferenceWithSign", false, false, ""},
+	{"x/amm/types", "ApplyDiscount", "applyDiscount", false, false, ""},
+	{"x/amm/types", "GetWeightBreakingFee", "getWeightBreakingFee", false, false, ""},
+	{"x/commitment/types", "VestingTokens.VestedSoFar", "vestedSoFar", false, false, ""},
+	{"x/perpetual/types", "CalcTakeAmount", "calcTakeAmount", false, false, ""},
+	{"x/perpetual/types", "MTP.CalcMTPTakeProfitBorrowFactor", "calcMTPTakeProfitBorrowFactor", false, false, ""},
+	{"x/perpetual/types", "MTP.GetBorrowInterestAmountAsCustodyAsset", "getBorrowInterestAmountAsCustodyAsset", false, false, ""},
+	{"x/perpetual/types", "CalcMTPTakeProfitCustody", "calcMTPTakeProfitCustody", false, false, ""},
+	{"x/perpetual/keeper", "Keeper.CalcReturnAmount", "calcReturnAmount", false, false, ""},
+	{"x/perpetual/keeper", "Keeper.GetLiquidationPrice", "getLiquidationPrice", false, false, ""},
+	{"x/perpetual/keeper", "Keeper.CalcMTPTakeProfitLiability", "calcMTPTakeProfitLiability", false, false, ""},
+	{"x/perpetual/keeper", "Keeper.GetFundingPaymentRates", "getFundingPaymentRates", false, false, ""},
+	{"x/perpetual/keeper", "Keeper.BorrowInterestRateComputation", "borrowInterestRateComputation", false, false, ""},
+	{"x/perpetual/keeper", "Keeper.CalcMinCollateral", "calcMinCollateral", false, false, ""},
+	{"x/stablestake/keeper", "Keeper.GetRedemptionRate", "getRedemptionRate", false, false, ""},
+	{"x/stablestake/keeper", "Keeper.Borrow", "borrowGuards", false, true, "UpdateInterestAndGetDebt"},
+	{"x/perpetual/keeper", "Keeper.CheckAndCloseAtStopLoss", "perpStopLossGuards", false, true, ""},
+	{"x/perpetual/keeper", "Keeper.CheckAndCloseAtTakeProfit", "perpTakeProfitGuards", false, true, ""},
+	{"x/leveragelp/keeper", "Keeper.CheckAndLiquidateUnhealthyPosition", "lpLiquidateGuards", false, true, "CacheContext"},
+	{"x/leveragelp/keeper", "Keeper.CheckAndCloseAtStopLoss", "lpStopLossGuards", false, true, "CacheContext"},
+	{"x/tradeshield/keeper", "Keeper.ExecuteStopLossOrder", "execStopLossGuards", false, true, ""},
+	{"x/tradeshield/keeper", "Keeper.ExecuteLimitSellOrder", "execLimitSellGuards", false, true, ""},
+	{"x/tradeshield/keeper", "Keeper.ExecuteLimitBuyOrder", "execLimitBuyGuards", false, true, ""},
+	{"x/tradeshield/keeper", "Keeper.ExecuteLimitOpenOrder", "execLimitOpenGuards", false, true, ""},
+	{"x/masterchef/keeper", "Keeper.CollectGasFees", "collectGasFees", true, false, ""},
+	{"x/masterchef/keeper", "Keeper.CollectPerpRevenue", "collectPerpRevenue", true, false, ""},
+	{"x/stablestake/keeper", "Keeper.InterestRateComputation", "interestRateComputation", false, false, ""},
 }
 
 // externs: callees that are loops; their hand-written Lean definitions are tied to the code by the differential harness only
